@@ -56,24 +56,25 @@ example : let cf : Conf := { run := fun _ => { cfg := { N := 2, retries := 0 }, 
     valid (halfSys cf) g [0, 0, 0, 0, 1, 1, 1, 1] = true ∧ complete (halfSys cf) g [0, 1] [0, 0, 0, 0, 1, 1, 1, 1] = true := by
   decide
 
-/-- no process returns 127 and there are no builds: the runs do not interact -/
-def NoInteraction (cf : Conf) (g : G) : Prop :=
-  ∀ r, NoBuild cf r ∧ (g.rs r).t.exeMissing = false ∧ ∀ o ∈ (g.rs r).script, classify (cf.run r).cfg o ≠ .notFound
+/-- no process returns 127 (the one way in which the schedule matters, see
+`c11_schedule_independent_full_fails`) -/
+def NoNF (cf : Conf) (g : G) : Prop :=
+  ∀ r, (g.rs r).t.exeMissing = false ∧ ∀ o ∈ (g.rs r).script, classify (cf.run r).cfg o ≠ .notFound
 
-theorem NoInteraction.shared {cf : Conf} {g : G} (h : NoInteraction cf g) (r : Nat) : NoSharedNF cf r g :=
-  fun q _ _ => (h q).2
+theorem NoNF.shared {cf : Conf} {g : G} (h : NoNF cf g) (r : Nat) : NoSharedNF cf r g :=
+  fun q _ _ => h q
 
 /-- FULL STATEMENT (false of the current code):
     for every configuration, loaded state, order, any two schedulers `k₁ k₂` and
-    choice streams `cs₁ cs₂` with both sessions finished,
-    `(session cf k₁ g order cs₁).trace.Perm (session cf k₂ g order cs₂).trace`.
+    choice streams `cs₁ cs₂` with both sessions finished, the traces (build
+    commands aside) are permutations of each other.
 Witness: two runs of one executable whose second invocation returns 127: under
 batch the second run is still started twice, under round-robin it has built its
 command line when the 127 is discovered and is cut short. -/
 theorem c11_schedule_independent_full_fails :
     ¬ (∀ (cf : Conf) (g : G) (order : List Nat) (k₁ k₂ : Kind) (cs₁ cs₂ : List Nat),
         (session cf k₁ g order cs₁).finished = true → (session cf k₂ g order cs₂).finished = true →
-        (session cf k₁ g order cs₁).trace.Perm (session cf k₂ g order cs₂).trace) := by
+        ((session cf k₁ g order cs₁).trace.filter noBuildT).Perm ((session cf k₂ g order cs₂).trace.filter noBuildT)) := by
   intro h
   have := h { run := fun _ => { cfg := { N := 2, retries := 0 }, exe := 0 } }
     { rs := fun _ => { script := [.exit 0 false 1, .exit 127 false 0] } } [0, 1] .batch .roundRobin
@@ -83,79 +84,107 @@ theorem c11_schedule_independent_full_fails :
   decide
 
 /-- **Schedule independence of the sequential schedulers** (`_partial`: under the
-hypothesis that no process returns 127 and no build is configured). For batch,
-round-robin and random with any choice streams, any two finished sessions from
-the same state: the traces are permutations of each other (same multiset of
-(run, invocation) starts, same multiset of recorded data points) and every run
-ends in the same state (same number of invocations recorded, completed or
-abandoned alike). -/
+hypothesis that no process returns 127). Builds are allowed — executor and suite
+builds, shared or private, succeeding or failing: a successful build is
+transparent, a failed one makes every run that depends on it end with nothing
+started and nothing recorded whatever the order. For batch, round-robin and
+random with any choice streams, any two finished sessions from the same loaded
+state (empty build table): the traces, build commands aside, are permutations
+of each other (same multiset of (run, invocation) starts, same multiset of
+recorded data points) and every run ends in the same state (same number of
+invocations recorded, completed or abandoned alike). -/
 theorem c11_schedule_independent_partial (cf : Conf) (g : G) (order : List Nat) (k₁ k₂ : Kind)
-    (cs₁ cs₂ : List Nat) (hni : NoInteraction cf g) (hnd : order.Nodup)
+    (cs₁ cs₂ : List Nat) (hnf : NoNF cf g) (hfresh : ∀ b, g.bst b = none) (hnd : order.Nodup)
     (hf1 : (session cf k₁ g order cs₁).finished = true) (hf2 : (session cf k₂ g order cs₂).finished = true) :
-    (session cf k₁ g order cs₁).trace.Perm (session cf k₂ g order cs₂).trace ∧
+    ((session cf k₁ g order cs₁).trace.filter noBuildT).Perm ((session cf k₂ g order cs₂).trace.filter noBuildT) ∧
     ∀ r, (session cf k₁ g order cs₁).g.rs r = (session cf k₂ g order cs₂).g.rs r := by
-  have key : ∀ r, proj r (session cf k₁ g order cs₁).trace = proj r (session cf k₂ g order cs₂).trace ∧
+  have hnd' := hnd.sublist (List.filter_sublist (l := order) (p := fun r => !shouldTerminate (cf.run r).cfg (g.rs r).t))
+  have key : ∀ r, projR r (session cf k₁ g order cs₁).trace = projR r (session cf k₂ g order cs₂).trace ∧
       (session cf k₁ g order cs₁).g.rs r = (session cf k₂ g order cs₂).g.rs r := by
     intro r
-    have A := seq_run_spec cf k₁ r (hni r).1 cs₁ g (uncompleted cf g order) (hnd.sublist List.filter_sublist)
-      (hni.shared r) (uncompleted_not_done' cf g order r)
-    have B := seq_run_spec cf k₂ r (hni r).1 cs₂ g (uncompleted cf g order) (hnd.sublist List.filter_sublist)
-      (hni.shared r) (uncompleted_not_done' cf g order r)
     simp only [session] at hf1 hf2 ⊢
-    obtain ⟨a1, a2, a3, a4⟩ := A
-    obtain ⟨b1, b2, b3, b4⟩ := B
-    have hcount : (seqLoop cf k₁ g (uncompleted cf g order) cs₁).picks.count r
-        = (seqLoop cf k₂ g (uncompleted cf g order) cs₂).picks.count r := by
-      by_cases hm : r ∈ uncompleted cf g order
-      · have d1 := a4 hf1 hm
-        have d2 := b4 hf2 hm
-        rw [a2] at d1
-        rw [b2] at d2
-        exact first_done_unique (runSys cf) r (g.rs r) _ _ d1 a3 d2 b3
-      · rw [List.count_eq_zero.mpr (fun h => hm (seqLoop_picks_subset _ _ _ _ _ r h)),
-            List.count_eq_zero.mpr (fun h => hm (seqLoop_picks_subset _ _ _ _ _ r h))]
-    rw [a1, a2, b1, b2, hcount]
-    exact ⟨rfl, rfl⟩
-  exact ⟨perm_of_proj _ _ (fun r => (key r).1), fun r => (key r).2⟩
+    rcases buildsOk_or_failBuild cf r with hb | hfb
+    · have A := seq_run_spec_builds cf k₁ r hb cs₁ g (uncompleted cf g order) hnd'
+        (hnf.shared r) (bstSound_of_fresh cf g hfresh) (uncompleted_not_done' cf g order r)
+      have B := seq_run_spec_builds cf k₂ r hb cs₂ g (uncompleted cf g order) hnd'
+        (hnf.shared r) (bstSound_of_fresh cf g hfresh) (uncompleted_not_done' cf g order r)
+      obtain ⟨a1, a2, a3, a4⟩ := A
+      obtain ⟨b1, b2, b3, b4⟩ := B
+      have hcount : (seqLoop cf k₁ g (uncompleted cf g order) cs₁).picks.count r
+          = (seqLoop cf k₂ g (uncompleted cf g order) cs₂).picks.count r := by
+        by_cases hm : r ∈ uncompleted cf g order
+        · have d1 := a4 hf1 hm
+          have d2 := b4 hf2 hm
+          rw [a2] at d1
+          rw [b2] at d2
+          exact first_done_unique (runSys cf) r (g.rs r) _ _ d1 a3 d2 b3
+        · rw [List.count_eq_zero.mpr (fun h => hm (seqLoop_picks_subset _ _ _ _ _ r h)),
+              List.count_eq_zero.mpr (fun h => hm (seqLoop_picks_subset _ _ _ _ _ r h))]
+      rw [a1, a2, b1, b2, hcount]
+      exact ⟨rfl, rfl⟩
+    · by_cases hm : r ∈ uncompleted cf g order
+      · have A := seq_run_spec_failbuild cf k₁ r hfb cs₁ g (uncompleted cf g order) hnd'
+          (hnf.shared r) (bstSoundT_of_fresh cf g hfresh) (uncompleted_not_terminated cf g order r)
+        have B := seq_run_spec_failbuild cf k₂ r hfb cs₂ g (uncompleted cf g order) hnd'
+          (hnf.shared r) (bstSoundT_of_fresh cf g hfresh) (uncompleted_not_terminated cf g order r)
+        rw [A.1, B.1, A.2 hf1 hm, B.2 hf2 hm]
+        exact ⟨rfl, rfl⟩
+      · obtain ⟨u1, u2⟩ := seqLoop_untouched cf k₁ r cs₁ g _ hm
+        obtain ⟨v1, v2⟩ := seqLoop_untouched cf k₂ r cs₂ g _ hm
+        rw [u1, v1, projR_of_proj_nil _ _ u2, projR_of_proj_nil _ _ v2]
+        exact ⟨rfl, rfl⟩
+  refine ⟨perm_of_proj _ _ (fun r => ?_), fun r => (key r).2⟩
+  rw [proj_filter_noBuild, proj_filter_noBuild]
+  exact (key r).1
 
-/-- non-vacuity: a failing-and-retried run next to a succeeding one -/
-example : let cf : Conf := { run := fun _ => { cfg := { N := 2, retries := 2 }, exe := 0 } }
+/-- non-vacuity: a failing-and-retried run, a run with a failing private build
+and a run with a succeeding one -/
+example : let cf : Conf := { run := fun i => { cfg := { N := 2, retries := 2 }, exe := 0,
+                                               builds := if i = 1 then [7] else if i = 2 then [8] else [] },
+                             buildOk := fun b => b != 7 }
     let g : G := { rs := fun i => { script := if i = 0 then [.exit 1 false 0, .exit 0 false 1, .exit 0 false 2]
                                               else [.exit 0 false 1, .exit 0 false 1] } }
-    (session cf .batch g [0, 1] (List.replicate 9 0)).finished = true ∧
-    (session cf .random g [0, 1] [1, 0, 1, 0, 1, 1, 1, 0, 0]).finished = true := by decide
+    (session cf .batch g [0, 1, 2] (List.replicate 9 0)).finished = true ∧
+    (session cf .random g [0, 1, 2] [1, 0, 1, 0, 1, 1, 1, 0, 0, 0, 0]).finished = true ∧
+    (session cf .roundRobin g [0, 1, 2] (List.replicate 9 0)).trace.filter noBuildT
+      = [(0, .start 1), (2, .start 1), (2, .record 1 1), (0, .start 1), (0, .record 1 1), (2, .start 2),
+         (2, .record 2 1), (0, .start 2), (0, .record 2 2)] := by decide
 
-/-- the sequential schedulers are instances of the abstract scheduler: without
-interaction a session's trace is the abstract execution of its own pick sequence -/
+/-- no build fails (builds may be configured) -/
+def AllBuildsOk (cf : Conf) : Prop := ∀ r, BuildsOk cf r
+
+/-- the sequential schedulers are instances of the abstract scheduler: when no
+process returns 127 and no build fails, a session's trace (build commands
+aside) is the abstract execution of its own pick sequence -/
 theorem c11_sequential_is_instance_partial (cf : Conf) (k : Kind) (g : G) (order cs : List Nat)
-    (hni : NoInteraction cf g) (hnd : order.Nodup) (r : Nat) :
-    proj r (session cf k g order cs).trace = proj r (exec (runSys cf) g.rs (session cf k g order cs).picks).2 ∧
+    (hnf : NoNF cf g) (hbo : AllBuildsOk cf) (hfresh : ∀ b, g.bst b = none) (hnd : order.Nodup) (r : Nat) :
+    projR r (session cf k g order cs).trace = proj r (exec (runSys cf) g.rs (session cf k g order cs).picks).2 ∧
     (session cf k g order cs).g.rs r = (exec (runSys cf) g.rs (session cf k g order cs).picks).1 r := by
-  have A := seq_run_spec cf k r (hni r).1 cs g (uncompleted cf g order) (hnd.sublist List.filter_sublist)
-    (hni.shared r) (uncompleted_not_done' cf g order r)
+  have A := seq_run_spec_builds cf k r (hbo r) cs g (uncompleted cf g order) (hnd.sublist List.filter_sublist)
+    (hnf.shared r) (bstSound_of_fresh cf g hfresh) (uncompleted_not_done' cf g order r)
   obtain ⟨e1, e2⟩ := exec_proj (runSys cf) g.rs (session cf k g order cs).picks r
   simp only [session] at e1 e2 ⊢
   rw [A.1, A.2.1, e1, e2]
   exact ⟨rfl, rfl⟩
 
 /-- **The parallel scheduler records what the sequential ones record** (`_partial`:
-no 127, no builds, known adapters). Take any valid and complete pick sequence of
-the half-step system (process starts and ends of concurrently running
-benchmarks in any completion order — what the parallel scheduler's worker
-threads produce) and any finished sequential session (batch, round-robin or
-random) from the same loaded state: every run has the same events (starts with
-their invocation numbers, recorded data) and ends in the same state. -/
+no 127, no failing build, known adapters). Take any valid and complete pick
+sequence of the half-step system (process starts and ends of concurrently
+running benchmarks in any completion order — what the parallel scheduler's
+worker threads produce) and any finished sequential session (batch, round-robin
+or random) from the same loaded state: every run has the same events (starts
+with their invocation numbers, recorded data) and ends in the same state. -/
 theorem c11_parallel_equals_sequential_partial (cf : Conf) (g : G) (order : List Nat) (k : Kind) (cs ps : List Nat)
-    (hni : NoInteraction cf g) (hnd : order.Nodup)
+    (hnf : NoNF cf g) (hbo : AllBuildsOk cf) (hfresh : ∀ b, g.bst b = none) (hnd : order.Nodup)
     (hak : ∀ r, (cf.run r).adapterKnown = true) (hnp : ∀ r, (g.rs r).pending = false)
     (hfin : (session cf k g order cs).finished = true)
     (hv : valid (halfSys cf) g.rs ps = true)
     (hc : complete (halfSys cf) g.rs (uncompleted cf g order) ps = true)
     (hs : ∀ p ∈ ps, p ∈ uncompleted cf g order) (r : Nat) :
-    proj r (exec (halfSys cf) g.rs ps).2 = proj r (session cf k g order cs).trace ∧
+    proj r (exec (halfSys cf) g.rs ps).2 = projR r (session cf k g order cs).trace ∧
     (exec (halfSys cf) g.rs ps).1 r = (session cf k g order cs).g.rs r := by
-  have A := seq_run_spec cf k r (hni r).1 cs g (uncompleted cf g order) (hnd.sublist List.filter_sublist)
-    (hni.shared r) (uncompleted_not_done' cf g order r)
+  have A := seq_run_spec_builds cf k r (hbo r) cs g (uncompleted cf g order) (hnd.sublist List.filter_sublist)
+    (hnf.shared r) (bstSound_of_fresh cf g hfresh) (uncompleted_not_done' cf g order r)
   obtain ⟨e1, e2⟩ := exec_proj (halfSys cf) g.rs ps r
   simp only [session] at hfin ⊢
   obtain ⟨a1, a2, a3, a4⟩ := A
@@ -188,7 +217,7 @@ theorem c11_parallel_equals_sequential_partial (cf : Conf) (g : G) (order : List
   exact ⟨rfl, rfl⟩
 
 /-- non-vacuity: an interleaving of two runs and a batch session -/
-example : let cf : Conf := { run := fun _ => { cfg := { N := 2, retries := 1 }, exe := 0 } }
+example : let cf : Conf := { run := fun _ => { cfg := { N := 2, retries := 1 }, exe := 0, builds := [3] } }
     let g : G := { rs := fun i => { script := if i = 0 then [.exit 0 false 2, .exit 1 false 0, .exit 0 false 1]
                                               else [.exit 0 false 1, .exit 0 false 1] } }
     (session cf .batch g [0, 1] (List.replicate 8 0)).finished = true ∧
@@ -233,5 +262,96 @@ theorem c11_datapoint_contiguous (crit : Nat) (tr : List (Nat × Ev)) (r inv dps
   simp only [fileLines, hpq, List.append_assoc]
 
 example : (0, Ev.record 1 2) ∈ [(1, Ev.start 1), (0, Ev.record 1 2), (1, Ev.record 1 1)] := by decide
+
+end RB.Sched
+
+namespace RB.Sched
+
+/-! ### every run is handed to exactly one worker -/
+
+/-- one `acquire_work`: the chunk is not empty and chunk and remainder together
+are exactly the list before (the chunk is its reversed tail) -/
+theorem c11_acquire_partition (threads : Nat) (rem c rest : List Nat) (h : acquire threads rem = some (c, rest)) :
+    c ≠ [] ∧ rest ++ c.reverse = rem ∧ rest.length < rem.length := by
+  unfold acquire at h
+  split at h
+  · exact absurd h (by simp)
+  · rename_i hne
+    simp only [Option.some.injEq, Prod.mk.injEq] at h
+    obtain ⟨hc, hr⟩ := h
+    have hlen : rem.length > 0 := List.length_pos_iff.mpr hne
+    have hnum : perThread threads rem.length ≥ 1 := by unfold perThread; omega
+    subst hc; subst hr
+    refine ⟨?_, by simp, ?_⟩
+    · intro e
+      have := congrArg List.length e
+      simp at this
+      omega
+    · simp; omega
+
+/-- all successive `acquire_work` calls together hand out every run of the
+shared list exactly as often as it occurs there — i.e. (the runs of a session
+being distinct) every run goes to exactly one worker — and no chunk is empty -/
+theorem c11_chunks_partition (threads : Nat) (rem : List Nat) :
+    (chunks threads rem).flatten.Perm rem ∧ ∀ c ∈ chunks threads rem, c ≠ [] := by
+  unfold chunks
+  have gen : ∀ fuel rem, rem.length ≤ fuel →
+      (chunksAux threads fuel rem).flatten.Perm rem ∧ ∀ c ∈ chunksAux threads fuel rem, c ≠ [] := by
+    intro fuel
+    induction fuel with
+    | zero =>
+      intro rem h
+      have : rem = [] := List.eq_nil_of_length_eq_zero (by omega)
+      subst this; simp [chunksAux]
+    | succ fuel ih =>
+      intro rem h
+      unfold chunksAux
+      cases ha : acquire threads rem with
+      | none =>
+        have : rem = [] := by
+          unfold acquire at ha
+          split at ha
+          · assumption
+          · simp at ha
+        subst this; simp
+      | some p =>
+        obtain ⟨c, rest⟩ := p
+        obtain ⟨h1, h2, h3⟩ := c11_acquire_partition threads rem c rest ha
+        obtain ⟨i1, i2⟩ := ih rest (by omega)
+        simp only [List.flatten_cons, List.mem_cons]
+        refine ⟨?_, ?_⟩
+        · have : (c ++ (chunksAux threads fuel rest).flatten).Perm (c.reverse ++ rest) :=
+            List.Perm.append (List.reverse_perm c).symm i1
+          rw [← h2]
+          exact this.trans List.perm_append_comm
+        · intro x hx
+          rcases hx with hx | hx
+          · rw [hx]; exact h1
+          · exact i2 x hx
+  exact gen rem.length rem (Nat.le_refl _)
+
+theorem c11_each_run_in_one_chunk (threads : Nat) (rem : List Nat) (r : Nat) :
+    (chunks threads rem).flatten.count r = rem.count r :=
+  (c11_chunks_partition threads rem).1.count_eq r
+
+/-- FULL STATEMENT (false of the pinned tree): whenever the parallel scheduler
+is chosen (more than one core) every run of the shared list is handed to a
+worker. Witness: two cores give `floor(2 / 2.5) = 0` worker threads, so no
+non-exclusive run is ever executed. -/
+theorem c11_every_run_handed_out_pinned_full_fails :
+    ¬ (∀ (cpu : Nat) (rem : List Nat), cpu > 1 → (handout (numThreadsPinned cpu) rem).flatten.Perm rem) := by
+  intro h
+  have := (h 2 [0, 1] (by decide)).length_eq
+  revert this
+  decide
+
+/-- repaired (at least one worker thread): every run is handed to exactly one worker -/
+theorem c11_every_run_handed_out (cpu : Nat) (rem : List Nat) :
+    (handout (numThreads cpu) rem).flatten.Perm rem ∧ ∀ c ∈ handout (numThreads cpu) rem, c ≠ [] := by
+  have hpos : numThreads cpu ≠ 0 := by unfold numThreads; omega
+  simp only [handout, hpos, if_false]
+  exact c11_chunks_partition _ rem
+
+example : handout (numThreads 8) [0, 1, 2, 3, 4, 5, 6] = [[6, 5], [4], [3], [2], [1], [0]] := by decide
 
 end RB.Sched
